@@ -12,22 +12,6 @@ import Nsq.Proofs.ChanScan
 namespace Nsq.Props.C01
 open Nsq.Model.Chan Nsq.Proofs.Chan
 
-theorem fannedIds_nodup {h : List Ev} (hok : okHist h = true) : (fannedIds h).Nodup := by
-  induction h with
-  | nil => simp [fannedIds]
-  | cons ev h ih =>
-    have hok' := hok
-    simp only [okHist, Bool.and_eq_true] at hok
-    cases ev <;> simp only [fannedIds] <;> try exact ih hok.2
-    case fanout i d =>
-      simp only [List.nodup_cons]
-      refine ⟨?_, ih hok.2⟩
-      have := hok.1
-      simp only [okEv, beq_iff_eq] at this
-      rw [mem_fannedIds]
-      have hz := (status_none_iff hok.2).1 this
-      omega
-
 /-- C01.3 — the ledger: the messages a channel holds (queued in memory or on disk, in flight —
 also to a connection that vanished —, deferred) are exactly those fanned out to it minus those
 finished, emptied, sampled out or dropped by an ephemeral queue; as sets and, ids being distinct,
@@ -93,13 +77,6 @@ theorem only_deliberate_drops (conf : Conf) (c : Chan) (op : Op) :
 
 /-! ### C01.5 progress (enabledness) -/
 
-theorem findE_of_mem {l : List Entry} (hn : (l.map (·.id)).Nodup) {e : Entry} (he : e ∈ l) : findE l e.id = some e := by
-  cases hf : findE l e.id with
-  | none => exact absurd rfl (findE_none hf e he)
-  | some e' =>
-    obtain ⟨he', hid⟩ := findE_some hf
-    rw [eq_of_id_eq hn he' he hid]
-
 /-- a queued message and a consumer whose guard holds: the delivery step is enabled, registers the
 message in flight for that consumer and sends it with the next attempts value -/
 theorem deliver_enabled {conf : Conf} {c : Chan} (h : C02.Reachable conf c) {e : Entry} (he : e ∈ c.msgs)
@@ -113,24 +90,6 @@ theorem deliver_enabled {conf : Conf} {c : Chan} (h : C02.Reachable conf c) {e :
   have hq' : isQueued e = true := by simp [isQueued, hq]
   simp only [step, doDeliver, hc, hr, hf, hq', Bool.not_true, Bool.false_eq_true, ↓reduceIte, true_and]
   exact ⟨_, mem_setE.2 ⟨e, he, rfl⟩, by simp⟩
-
-theorem mem_insertByPri {e x : Entry} {l : List Entry} : x ∈ insertByPri e l ↔ x = e ∨ x ∈ l := by
-  induction l with
-  | nil => simp [insertByPri]
-  | cons y l ih =>
-    simp only [insertByPri]
-    split
-    · simp
-    · simp only [List.mem_cons, ih]
-      constructor
-      · rintro (h | h | h) <;> simp [h]
-      · rintro (h | h | h) <;> simp [h]
-
-theorem mem_sortByPri {x : Entry} {l : List Entry} : x ∈ sortByPri l ↔ x ∈ l := by
-  unfold sortByPri
-  induction l with
-  | nil => simp
-  | cons y l ih => simp only [List.foldr_cons, mem_insertByPri, ih, List.mem_cons]
 
 /-- an in-flight message whose deadline has passed is picked up by the scan (whoever held it —
 also a connection that has vanished): `timeoutOne` puts it back on the queue … -/
@@ -237,13 +196,6 @@ theorem nreachable_inv {s : State} (h : NReachable s) : NInv s := by
 invariant — so all channel-level statements of C01, C02, C13 hold for it -/
 theorem every_channel_inv {s : State} (h : NReachable s) {t : Topic} (ht : t ∈ s.topics) {nc : NChan} (hnc : nc ∈ t.chans) :
     Inv 0 nc.ch := ((nreachable_inv h).topics t ht).chans nc hnc
-
-theorem ensureTopic_has (s : State) (t : Nat) : ∃ y ∈ (ensureTopic s t).topics, y.tid = t := by
-  unfold ensureTopic
-  split
-  · rename_i tp hf
-    exact ⟨tp, (findT_some hf).1, (findT_some hf).2⟩
-  · exact ⟨{ tid := t, memCap := s.conf.memq }, by simp, rfl⟩
 
 /-- C01.1 `ack_implies_enqueued` — when PUB / DPUB is answered OK (`.ids [id]`) the message is in
 the topic's queue (memory or disk) and recorded as acknowledged, whatever the topic's state
